@@ -166,8 +166,8 @@ type callRes struct {
 	n     int
 	err   error
 	panic any
-	val   xval   // Unmarshal only
-	str   string // UnmarshalString only: the string as returned (may alias the source)
+	val   xval    // Unmarshal only
+	str   string  // UnmarshalString only: the string as returned (may alias the source)
 	ptr   uintptr // Unmarshal{Bytes,String}: address of the first returned byte (0 if none)
 	plen  int     // and the number of returned bytes
 }
